@@ -148,12 +148,20 @@ func ParseExpandedNodeID(s string, ns []string) (*ExpandedNodeID, error) {
 
 	var nsval, idval string
 
-	p := strings.SplitN(s, ";", 2)
-	switch len(p) {
-	case 1:
-		nsval, idval = "ns=0", p[0]
-	case 2:
-		nsval, idval = p[0], p[1]
+	// A text which starts with the string identifier prefix has no namespace
+	// part: everything after "s=" is the identifier of a string node id in
+	// namespace 0 and may contain ';' itself ("s=a;b" is what String()
+	// renders for such an id). Every other text is split at the first ';'.
+	if strings.HasPrefix(s, "s=") {
+		nsval, idval = "ns=0", s
+	} else {
+		p := strings.SplitN(s, ";", 2)
+		switch len(p) {
+		case 1:
+			nsval, idval = "ns=0", p[0]
+		case 2:
+			nsval, idval = p[0], p[1]
+		}
 	}
 
 	// parse namespace
